@@ -1277,8 +1277,11 @@ class Pregex():
         Returns the string representation of this instance's \
         underlying pattern in a printable format.
         '''
+        # An escaped non-printable character or quote is denoted by its own
+        # escape sequence, so drop the backslash that escapes it.
+        pattern = _re.sub(r"(?<!\\)((?:\\\\)*)\\([^ -&(-~])", r"\1\2", self.__pattern)
         # Replace any quadraple backslashes.
-        return _re.sub(r"\\\\", r"\\", repr(self.__pattern)[1:-1])
+        return _re.sub(r"\\\\", r"\\", repr(pattern)[1:-1])
         
 
     def __add__(self, pre: _Union['Pregex', str]) -> 'Pregex':
